@@ -13,7 +13,11 @@ use std::{
 
 use serde_json::{json, Value};
 
-pub const VERIF_ROOT: &str = "/verif";
+/// Root of the verification tree. `/verif` unless `VERIF_LANE_ROOT` says otherwise (used only by
+/// `tools/lane.sh`, which runs regression lanes on copies of /repo and the harness in parallel).
+pub fn verif_root() -> PathBuf {
+    PathBuf::from(std::env::var("VERIF_LANE_ROOT").unwrap_or_else(|_| "/verif".to_string()))
+}
 
 #[derive(Clone, Copy, Debug, PartialEq, Eq)]
 pub enum Tier {
@@ -164,7 +168,7 @@ pub struct FindingEntry {
 }
 
 pub fn load_findings() -> Vec<FindingEntry> {
-    let path = Path::new(VERIF_ROOT).join("KNOWN_FINDINGS.txt");
+    let path = verif_root().join("KNOWN_FINDINGS.txt");
     let Ok(text) = fs::read_to_string(&path) else {
         return Vec::new();
     };
@@ -215,7 +219,7 @@ pub fn finish(ctx: &Ctx, cov: Coverage, violations: Violations) -> i32 {
         .map(|f| (f.sig.as_str(), f))
         .collect();
 
-    let replay_dir = PathBuf::from(VERIF_ROOT).join("replays").join(ctx.id);
+    let replay_dir = verif_root().join("replays").join(ctx.id);
     let mut new_violations = 0u64;
     let mut known_hit: Vec<Value> = Vec::new();
     let mut violation_list: Vec<Value> = Vec::new();
@@ -301,7 +305,7 @@ pub fn finish(ctx: &Ctx, cov: Coverage, violations: Violations) -> i32 {
         "wall_s": wall,
         "violations": new_violations,
     });
-    let ev_dir = PathBuf::from(VERIF_ROOT).join("evidence");
+    let ev_dir = verif_root().join("evidence");
     let _ = fs::create_dir_all(&ev_dir);
     let ev_path = ev_dir.join(format!("{}.json", ctx.id));
     if let Err(e) = fs::write(&ev_path, serde_json::to_string_pretty(&evidence).unwrap()) {
